@@ -110,6 +110,10 @@ package revocation
 //@        ==> ret(call (*StatusList2021).isManaged #1) == true
 //@         || ( !(result.0.Expires != nil && ret(call (time.Time).Before #1) == true) && ret(call (time.Time).Before #2) == false )
 //@         || did(call (*StatusList2021).update #2)
+// ... and a refresh that succeeded IS the answer (the list just downloaded and verified replaces what was known: it is never
+// second-guessed against the copy it replaces), and the look-up itself never writes a list back
+//@   ensures [a-successful-refresh-is-the-answer] did(call (*StatusList2021).update #2) && isNilIface(ret(call (*StatusList2021).update #2).1) ==> isNilIface(result.1) && result.0 == ret(call (*StatusList2021).update #2).0
+//@   ensures [the-look-up-stores-nothing-itself] !didCallWith("(*gorm.DB).Create", 1, any(ret(call (*StatusList2021).loadCredential #1).0))
 
 //@ func (*StatusList2021).Verify
 //@   prop C01 C11 C19
